@@ -8,6 +8,7 @@ T:[lt,n); the cleanup closure interprets the buffer through the *counters*, so
 at every exit the obligation is  lu == *produced  and  lt == *consumed.
 """
 import copy
+import re
 from collections import defaultdict
 
 from mirlib import (callee_path, callee_decl_path, callee_ty_args, op_place, op_local, op_int,
@@ -1950,10 +1951,17 @@ def guard_rule(ctx, crate, b, label):
             cl = trace_value(w, wd, call['args'][1])[-1]
             ok = ok and cl[0] == 'rv' and cl[1].get('ak') == 'closure'
             res = trace_value(w, wd, {'copy': {'l': 0, 'p': [], 'ty': None}})[-1]
-            ok = ok and res[0] == 'call' and (callee_path(res[1]) or '').startswith('core::result::Result::<T, E>::unwrap') or ok and res[0] == 'call' and (callee_path(res[1]) or '').startswith('core::result::Result::<T, E>::expect')
-            if ok:
+            # the answer: the Ok payload of the delegate's result, taken out by unwrap()/expect()/into_ok()
+            # or by a match (`Ok(output) => output`)
+            if ok and res[0] == "call" and re.match(r'core::result::Result::<T, E>::(unwrap|expect|into_ok|unwrap_unchecked)', callee_path(res[1]) or ''):
                 r0 = trace_value(w, wd, res[1]['args'][0])[-1]
                 ok = r0[0] == 'call' and r0[1] is call
+            elif ok and res[0] == 'place' and [e.get('name') for e in res[1]['p'] if isinstance(e, dict) and 'downcast' in e] == ['Ok'] \
+                    and [e['f'] for e in res[1]['p'] if isinstance(e, dict) and 'f' in e] == [0]:
+                r0 = trace_value(w, wd, {'copy': {'l': res[1]['l'], 'p': [], 'ty': None}})[-1]
+                ok = r0[0] == 'call' and r0[1] is call
+            else:
+                ok = False
             adapter_ok = False
             if ok:
                 ab = crate.body(cl[1]['closure'])
